@@ -617,6 +617,17 @@ func runPSeq(w *bufio.Writer, seqW *bufio.Writer, s PSeq) error {
 	if s.Redurable > 0 && len(p.images) > 0 {
 		p.redurable(s)
 	}
+	if s.Mode == "snap" {
+		// crash inside a snapshot, restart, write, snapshot again, restart again: the directory must stay usable
+		n := 0
+		for k, im := range p.images {
+			if !strings.HasPrefix(im.point, "snapshot.take.") || n >= 24 {
+				continue
+			}
+			p.recrash(s, k, im)
+			n++
+		}
+	}
 	if seqW != nil {
 		j, _ := json.Marshal(s)
 		seqW.Write(j)
@@ -665,6 +676,44 @@ func (p *pRun) redurable(s PSeq) {
 	q.seq.RestoreAdv = 0
 	im := &image{point: "redurable", op: last.op, now: last.now, files: files2, lo: 0, hi: 0, copyIdx: -1, prevSnap: -1, curSnap: -1}
 	q.emit(fmt.Sprintf("%s.%d.redurable", s.ID, last.op), im, files2, "redurable")
+}
+
+// recrash: the server died at this point of a snapshot; it is restarted on what is on disk, takes a write and
+// a new snapshot, and is restarted once more.
+func (p *pRun) recrash(s PSeq, k int, im *image) {
+	dir, err := os.MkdirTemp(scratchBase(), "vhc")
+	if err != nil {
+		return
+	}
+	defer os.RemoveAll(dir)
+	if writeTree(dir, im.files) != nil {
+		return
+	}
+	in, err := NewInstAt(Opts{DataDir: dir, RestoreSnap: true}, im.now+1000)
+	if err != nil {
+		return
+	}
+	r1 := in.Exec(nil, []string{"set", "after-crash", "v"})
+	in.Clock.Advance(10)
+	ms := in.Clock.Ms()
+	r2 := execFn(in, func() error { return in.S.VerifTakeSnapshotSync() })
+	d, derr := in.Dump()
+	in.S.ShutDown()
+	if derr != nil || r1.Kind != "ok" || r2.Kind == "hang" {
+		return
+	}
+	files2 := map[string][]byte{}
+	for n, b := range readTree(filepath.Join(dir, "snapshots")) {
+		files2["snapshots/"+n] = b
+	}
+	q := &pRun{w: p.w, seq: s, states: []string{d}, prevSnap: 0, prevMs: ms, curSnap: -1, copyIdx: -1}
+	q.seq.RestoreAdv = 0
+	im2 := &image{point: "boundary", op: im.op, now: ms + 1000, files: files2, lo: 0, hi: 0, copyIdx: -1, prevSnap: 0, prevMs: ms, curSnap: -1,
+		opName: "@snapshot", opKind: r2.Kind, opText: r2.Bytes, lastSave: ms}
+	if r2.Kind != "ok" {
+		im2.lastSave = 0
+	}
+	q.emit(fmt.Sprintf("%s.%d.i%d.recrash", s.ID, im.op, k), im2, files2, "boundary")
 }
 
 func execFn(in *Inst, f func() error) Result {
